@@ -4,6 +4,7 @@ import "verifharness/internal/core"
 
 // Registry maps property ids to their runners.
 var Registry = map[string]func(*core.Ctx){
+	"C04": RunC04,
 	"C05": RunC05,
 	"C11": RunC11,
 	"C12": RunC12,
@@ -22,4 +23,5 @@ func RegisterOnly(c *core.Ctx) {
 	registerCrypterKinds(c)
 	registerKexKinds(c)
 	registerChunkKinds(c)
+	registerVoucherKinds(c)
 }
